@@ -21,8 +21,14 @@
    from any operation of this property). *)
 From Coq Require Import ZArith List Bool Permutation.
 From DV Require Import Model.PyPrims Model.Tree Model.C07Model Model.C07Spec Proofs.C07Thms.
+From DV Require Model.Heap Model.HeapOps Model.C03Spec Proofs.C03Base Proofs.C03Reseed.
+From DV Require Proofs.C07Link Proofs.C07LinkOps Proofs.C07LinkEdge Proofs.C07LinkOrder Proofs.C07LinkEx
+     Proofs.C07Seed.
 Import ListNotations.
 Open Scope Z_scope.
+
+(* Sections 1-6: the specification-level model.  Section 7: unifurcating seed, tie-break of
+   reroot_at_midpoint.  Section 8: end to end with the statement-level heap model of C03. *)
 
 (* ============ 1. the core: inverting ONE edge (Edge.invert at the seed) ============ *)
 (* seed (i) with children A ++ k :: B; k = (i') with children ks'.  After the inversion k is the
@@ -301,3 +307,212 @@ Theorem nonvacuous_rotate :
   exists t', rotate [(0, [1%nat; 0%nat]); (1, [1%nat; 0%nat]); (4, [0%nat; 1%nat])] ex_t = Some t' /\ t' <> ex_t.
 Proof. exact ex_rotate. Qed.
 Print Assumptions nonvacuous_rotate.
+
+(* ============ 7. a seed with a single child; re-seeding at the seed; midpoint tie-break ============ *)
+(* The hypothesis `2 <= number of children of the seed` above is there because re-seeding turns a
+   unifurcating seed into a leaf.  That behaviour, characterised: re-seeding T i x l e [k] at a node
+   n below the seed is literally re-seeding `seed_as_leaf i x l e k` = k with the old seed hanging
+   below it as a LEAF (taxon x, length = k's edge length) ... *)
+Theorem reseed_at_unifurcating_seed_is_seed_as_leaf :
+  forall i x l e k r n upd coll supp,
+  i <> n -> t_kids k <> [] ->
+  reseed_at (T i x l e [k]) r n upd coll supp =
+  reseed_at (match k with T i' x' l' e' ks' => T i' x' l' e (ks' ++ [T i x l e' []]) end) r n upd coll supp.
+Proof. exact Proofs.C07Seed.reseed_at_unif_seed. Qed.
+Print Assumptions reseed_at_unifurcating_seed_is_seed_as_leaf.
+
+(* ... hence: the leaves are the old ones plus the old seed (taxon x), the total length is unchanged,
+   the distances between old leaves are unchanged, the old seed is as far from every leaf a as it
+   was as the root (k's edge included), and the unrooted splits are those of seed_as_leaf *)
+Theorem reseed_at_unifurcating_seed :
+  forall i x l e k r n upd coll supp t' r',
+  reseed_at (T i x l e [k]) r n upd coll supp = Ok (t', r') ->
+  i <> n -> is_internal_node n (T i x l e [k]) -> NoDup (leaf_taxa k ++ [x]) ->
+  Permutation (leaf_taxa k ++ [x]) (leaf_taxa t')
+  /\ total_length t' = total_length (T i x l e [k])
+  /\ (forall a b, In a (leaf_taxa k) -> In b (leaf_taxa k) -> dist a b t' = dist a b (T i x l e [k]))
+  /\ (forall a, In a (leaf_taxa k) -> dist a x t' = downT a k)
+  /\ (forall S, is_usplit (match k with T i' x' l' e' ks' => T i' x' l' e (ks' ++ [T i x l e' []]) end) S
+                <-> is_usplit t' S).
+Proof. exact Proofs.C07Seed.reseed_at_unifurcating_seed_l. Qed.
+Print Assumptions reseed_at_unifurcating_seed.
+
+(* re-seeding at the seed itself (only the clean-up passes run): any number of children *)
+Theorem reseed_at_seed_itself_invariant :
+  forall t r upd coll supp t' r',
+  reseed_at t r (t_id t) upd coll supp = Ok (t', r') -> NoDup (leaf_taxa t) ->
+  Permutation (leaf_taxa t) (leaf_taxa t')
+  /\ (forall S, is_usplit t S <-> is_usplit t' S)
+  /\ total_length t' = total_length t
+  /\ (forall a b, dist a b t' = dist a b t).
+Proof. exact Proofs.C07Seed.reseed_at_seed_itself_l. Qed.
+Print Assumptions reseed_at_seed_itself_invariant.
+
+(* Which pair does reroot_at_midpoint use?  max_pairwise_distance_taxa keeps the FIRST pair with a
+   strictly greater distance while iterating `_all_distinct_mapped_taxa_pairs`, a set of frozensets
+   of Taxon objects hashed by id(): with ties the pick changes from run to run (observed on ex_t:
+   (B,D), (A,D), ...), which is why the pair is an input of the model.  All theorems above hold for
+   whichever pair is picked; on ex_t (four tied pairs, either order) the result is even the same
+   tree: the root stays at the seed, where the midpoint of every longest path lies. *)
+Theorem midpoint_tie_break_example :
+  forall pr, In pr [(Some 0, Some 2); (Some 0, Some 3); (Some 1, Some 2); (Some 1, Some 3);
+                    (Some 2, Some 0); (Some 3, Some 0); (Some 2, Some 1); (Some 3, Some 1)] ->
+  reroot_at_midpoint ex_t None (Some pr) false true true 100 = Ok (dbl ex_t, Some true).
+Proof. exact Proofs.C07Seed.midpoint_tie_example. Qed.
+Print Assumptions midpoint_tie_break_example.
+
+(* ============ 8. end to end: the STATEMENT-LEVEL heap model ============ *)
+(* Model/Heap.v + Model/HeapOps.v (C03's transcription of the pointer manipulation: parent pointers,
+   child lists, Edge.invert / Edge.collapse / add_child / remove_child / insert_child statement by
+   statement) with C03's invariant C03Base.WF and abstraction Heap.abs : heap -> option tree.
+   8a: C03's rose-tree specifications are the same functions as the C07 model functions. *)
+Theorem c03_spec_su_is_suppress : forall t, C03Spec.spec_su t = suppress t.
+Proof. exact Proofs.C07Link.spec_su_eq. Qed.
+Print Assumptions c03_spec_su_is_suppress.
+
+Theorem c03_spec_collapse_basal_is_collapse_basal :
+  forall t, C03Spec.spec_collapse_basal t = fst (collapse_basal t).
+Proof. exact Proofs.C07Link.spec_collapse_basal_eq. Qed.
+Print Assumptions c03_spec_collapse_basal_is_collapse_basal.
+
+Theorem c03_spec_encode_is_post_reseed :
+  forall su cb r t, C03Spec.spec_encode su cb (not_rooted r) t = fst (post_reseed t r cb su).
+Proof. exact Proofs.C07Link.spec_encode_eq. Qed.
+Print Assumptions c03_spec_encode_is_post_reseed.
+
+Theorem c03_spec_reseed_is_rot : forall n t, C03Spec.spec_reseed n t = rot (t_len t) n t [].
+Proof. exact Proofs.C07Link.spec_reseed_eq. Qed.
+Print Assumptions c03_spec_reseed_is_rot.
+
+(* ... and in the one-hole-context form the heap proofs use *)
+Theorem c03_reroot_is_rot :
+  forall c s, NoDup (ids (C03Base.plug c s)) ->
+  rot (t_len (C03Base.plug c s)) (t_id s) (C03Base.plug c s) [] = Some (C03Reseed.reroot c s).
+Proof. exact Proofs.C07Link.rot_plug. Qed.
+Print Assumptions c03_reroot_is_rot.
+
+(* 8b: for every well-formed heap h whose abstraction is t, the HEAP program completes, leaves a
+   well-formed heap whose abstraction t' is exactly what the C07 model function computes from t,
+   and t' is the same unrooted tree as t. *)
+Theorem heap_reseed_at_preserves :
+  forall ub cb su h t n,
+  C03Base.WF h -> Heap.abs h = Some t ->
+  is_internal_node n t -> (2 <= length (t_kids t))%nat -> NoDup (leaf_taxa t) ->
+  exists h' t' r', HeapOps.reseed_at n ub cb su h = Heap.HOk h' /\ C03Base.WF h' /\ Heap.abs h' = Some t'
+    /\ reseed_at t (Heap.rooted h) n ub cb su = Ok (t', r')
+    /\ Permutation (leaf_taxa t) (leaf_taxa t')
+    /\ (forall S, is_usplit t S <-> is_usplit t' S)
+    /\ total_length t' = total_length t
+    /\ (forall a b, dist a b t' = dist a b t).
+Proof. exact Proofs.C07LinkOps.heap_reseed_at_l. Qed.
+Print Assumptions heap_reseed_at_preserves.
+
+Theorem heap_reroot_at_node_preserves :
+  forall ub su cb h t n,
+  C03Base.WF h -> Heap.abs h = Some t ->
+  is_internal_node n t -> (2 <= length (t_kids t))%nat -> NoDup (leaf_taxa t) ->
+  exists h' t', HeapOps.reroot_at_node n ub su cb h = Heap.HOk h' /\ C03Base.WF h' /\ Heap.abs h' = Some t'
+    /\ Heap.rooted h' = Some true
+    /\ reroot_at_node t (Heap.rooted h) n ub su cb = Ok (t', Some true)
+    /\ Permutation (leaf_taxa t) (leaf_taxa t')
+    /\ (forall S, is_usplit t S <-> is_usplit t' S)
+    /\ total_length t' = total_length t
+    /\ (forall a b, dist a b t' = dist a b t).
+Proof. exact Proofs.C07LinkOps.heap_reroot_at_node_l. Qed.
+Print Assumptions heap_reroot_at_node_preserves.
+
+(* the new node is the one the next Node() call allocates: Heap.next h *)
+Theorem heap_reroot_at_edge_preserves :
+  forall l1 l2 ub su h t ci H,
+  C03Base.WF h -> Heap.abs h = Some t -> find_node ci t = Some H -> ci <> t_id t ->
+  len0 l1 + len0 l2 = len0 (t_len H) ->
+  (2 <= length (t_kids t))%nat -> NoDup (leaf_taxa t) ->
+  exists h' t', HeapOps.reroot_at_edge ci l1 l2 ub su h = Heap.HOk h' /\ C03Base.WF h' /\ Heap.abs h' = Some t'
+    /\ Heap.rooted h' = Some true
+    /\ reroot_at_edge t (Heap.rooted h) ci l1 l2 ub su (Heap.next h) = Ok (t', Some true)
+    /\ Permutation (leaf_taxa t) (leaf_taxa t')
+    /\ (forall S, is_usplit t S <-> is_usplit t' S)
+    /\ total_length t' = total_length t
+    /\ (forall a b, dist a b t' = dist a b t).
+Proof. exact Proofs.C07LinkEdge.heap_reroot_at_edge_l. Qed.
+Print Assumptions heap_reroot_at_edge_preserves.
+
+(* to_outgroup_position with suppress_unifurcations=False (the case C03 proves; with True the
+   library can leave an ill-formed structure, see C03) *)
+Theorem heap_to_outgroup_position_preserves :
+  forall ub h t og,
+  C03Base.WF h -> Heap.abs h = Some t -> In og (ids t) -> og <> t_id t ->
+  (2 <= length (t_kids t))%nat -> NoDup (leaf_taxa t) ->
+  exists h' t', HeapOps.to_outgroup_position og ub false h = Heap.HOk h' /\ C03Base.WF h' /\ Heap.abs h' = Some t'
+    /\ to_outgroup t (Heap.rooted h) og ub false = Ok (t', Heap.rooted h)
+    /\ (exists k rest, t_kids t' = k :: rest /\ t_id k = og)
+    /\ Permutation (leaf_taxa t) (leaf_taxa t')
+    /\ (forall S, is_usplit t S <-> is_usplit t' S)
+    /\ total_length t' = total_length t
+    /\ (forall a b, dist a b t' = dist a b t).
+Proof. exact Proofs.C07LinkEdge.heap_to_outgroup_l. Qed.
+Print Assumptions heap_to_outgroup_position_preserves.
+
+Theorem heap_suppress_unifurcations_preserves :
+  forall h t,
+  C03Base.WF h -> Heap.abs h = Some t ->
+  exists h', HeapOps.suppress_unifurcations h = Heap.HOk h' /\ C03Base.WF h' /\ Heap.abs h' = Some (suppress t)
+    /\ Heap.rooted h' = Heap.rooted h
+    /\ leaf_taxa (suppress t) = leaf_taxa t
+    /\ (forall S, is_usplit t S <-> is_usplit (suppress t) S)
+    /\ total_length (suppress t) = total_length t
+    /\ (forall a b, dist a b (suppress t) = dist a b t).
+Proof. exact Proofs.C07LinkOps.heap_suppress_l. Qed.
+Print Assumptions heap_suppress_unifurcations_preserves.
+
+Theorem heap_collapse_basal_bifurcation_preserves :
+  forall u h t,
+  C03Base.WF h -> Heap.abs h = Some t -> NoDup (leaf_taxa t) ->
+  exists h', HeapOps.collapse_basal_bifurcation u h = Heap.HOk h' /\ C03Base.WF h' /\
+    Heap.abs h' = Some (fst (collapse_basal t))
+    /\ Permutation (leaf_taxa t) (leaf_taxa (fst (collapse_basal t)))
+    /\ (forall S, is_usplit t S <-> is_usplit (fst (collapse_basal t)) S)
+    /\ total_length (fst (collapse_basal t)) = total_length t
+    /\ (forall a b, dist a b (fst (collapse_basal t)) = dist a b t).
+Proof. exact Proofs.C07LinkOps.heap_collapse_basal_l. Qed.
+Print Assumptions heap_collapse_basal_bifurcation_preserves.
+
+(* ladderize / reorder: C03 has no rose-tree specification for them (only: same node set, same
+   leaf multiset).  Here the heap fold is shown to yield the same tree up to the order of children
+   at every node, hence the same unrooted tree; equality with the model function `ladderize` (same
+   ORDER) is covered by the correspondence run only. *)
+Theorem heap_ladderize_preserves :
+  forall asc h t,
+  C03Base.WF h -> Heap.abs h = Some t -> NoDup (leaf_taxa t) ->
+  exists h' t', HeapOps.ladderize asc h = Heap.HOk h' /\ C03Base.WF h' /\ Heap.abs h' = Some t'
+    /\ Heap.rooted h' = Heap.rooted h
+    /\ t_id t' = t_id t /\ Permutation (ids t) (ids t')
+    /\ Permutation (leaf_taxa t) (leaf_taxa t')
+    /\ (forall S, is_usplit t S <-> is_usplit t' S)
+    /\ total_length t' = total_length t
+    /\ (forall a b, dist a b t' = dist a b t).
+Proof. exact Proofs.C07LinkOrder.heap_ladderize_l. Qed.
+Print Assumptions heap_ladderize_preserves.
+
+Theorem heap_reorder_preserves :
+  forall asc ranks h t,
+  C03Base.WF h -> Heap.abs h = Some t -> NoDup (leaf_taxa t) ->
+  exists h' t', HeapOps.reorder asc ranks h = Heap.HOk h' /\ C03Base.WF h' /\ Heap.abs h' = Some t'
+    /\ Heap.rooted h' = Heap.rooted h
+    /\ t_id t' = t_id t /\ Permutation (ids t) (ids t')
+    /\ Permutation (leaf_taxa t) (leaf_taxa t')
+    /\ (forall S, is_usplit t S <-> is_usplit t' S)
+    /\ total_length t' = total_length t
+    /\ (forall a b, dist a b t' = dist a b t).
+Proof. exact Proofs.C07LinkOrder.heap_reorder_l. Qed.
+Print Assumptions heap_reorder_preserves.
+
+(* non-vacuity: the heap built from ex_t is well formed, abstracts to ex_t, satisfies the hypotheses,
+   and the heap program reseed_at changes it *)
+Theorem nonvacuous_heap_reseed_at :
+  C03Base.WF (Heap.of_tree ex_t None) /\ Heap.abs (Heap.of_tree ex_t None) = Some ex_t
+  /\ is_internal_node 1 ex_t /\ (2 <= length (t_kids ex_t))%nat /\ NoDup (leaf_taxa ex_t)
+  /\ exists h' t', HeapOps.reseed_at 1 true true true (Heap.of_tree ex_t None) = Heap.HOk h'
+                   /\ Heap.abs h' = Some t' /\ t' <> ex_t.
+Proof. exact Proofs.C07LinkEx.ex_heap. Qed.
+Print Assumptions nonvacuous_heap_reseed_at.
